@@ -7,6 +7,7 @@
 #![allow(dead_code)]
 mod rng;
 mod sx;
+mod c07;
 mod c08;
 mod c09;
 mod c10;
@@ -43,8 +44,44 @@ fn prop(id: &str) -> Prop {
         "C15" => Prop { gen: c15::gen, run: c15::run },
         "C16" => Prop { gen: c16::gen, run: c16::run },
         "C20" => Prop { gen: c20::gen, run: c20::run },
+        "C07" => Prop { gen: c07::gen, run: c07::run },
         "C13" => Prop { gen: c13::gen, run: c13::run },
         _ => { eprintln!("unknown property {}", id); std::process::exit(2) }
+    }
+}
+
+/// Run one case of `prop` in a child process with a watchdog (for code that may hang or abort).
+/// The child prints the observation and the label on two lines; a timeout yields `!hang`.
+pub fn run_in_child(prop: &str, case: &Sx, timeout_s: u64) -> (Sx, String) {
+    use std::process::{Command, Stdio};
+    let exe = std::env::current_exe().unwrap();
+    let mut child = Command::new(exe).args(["one", prop, &case.show()]).stdout(Stdio::piped()).stderr(Stdio::null()).spawn().unwrap();
+    let start = std::time::Instant::now();
+    loop {
+        match child.try_wait().unwrap() {
+            Some(status) => {
+                let mut out = String::new();
+                use std::io::Read;
+                child.stdout.take().unwrap().read_to_string(&mut out).unwrap();
+                let mut lines = out.lines();
+                if !status.success() {
+                    panic!("child exited with {:?}: {}", status.code(), out.lines().last().unwrap_or(""));
+                }
+                let o = lines.next().unwrap_or("()"); let l = lines.next().unwrap_or("child");
+                return (Sx::parse(o), l.to_string());
+            }
+            None => {
+                if start.elapsed().as_secs() > timeout_s { let _ = child.kill(); let _ = child.wait(); panic!("hang: no return within {} s", timeout_s); }
+                std::thread::sleep(std::time::Duration::from_millis(2));
+            }
+        }
+    }
+}
+
+fn run_one_direct(prop: &str, case: &Sx) -> (Sx, String) {
+    match prop {
+        "C07" => c07::run_loop_direct(case),
+        _ => panic!("no direct runner for {}", prop),
     }
 }
 
@@ -89,6 +126,11 @@ fn main() {
             for c in &cases { writeln!(cf, "{}", c.show()).unwrap(); }
             drop(cf);
             run_all(&p, &cases, outdir);
+        }
+        "one" => {
+            let c = Sx::parse(&a[3]);
+            let (o, l) = run_one_direct(&a[2], &c);
+            println!("{}", o.show()); println!("{}", l);
         }
         "run" => {
             let p = prop(&a[2]);
